@@ -91,7 +91,11 @@ def append_step(prog: Program, rep: Report) -> None:
     rep.check(rule, fi.qual, "counter: npid <- npid + n (same n)", isinstance(npid, NF) and isinstance(n_nf, NF) and npid == NF.atom("npid") + n_nf, what_bad=f"npid becomes {vtext(npid)}; identifiers would be reused or skipped", what_ok="npid + n", loc=fi.loc())
     var = it.objenv.get("state.variables")
     vt = vtext(var)
-    ok_var = isinstance(n_nf, NF) and vt.startswith("cat(state.variables;") and f";({n_nf.canon()},))" in vt.replace(" ", "") or (isinstance(n_nf, NF) and vt == f"cat(state.variables;bto(item;({n_nf.canon()})))")
+    import re as _re
+
+    vts = vt.replace(" ", "")
+    mvar = _re.fullmatch(r"cat\(state\.variables;bto\((item[^;()]*);\(([^()]*?),?\)\)\)", vts)
+    ok_var = isinstance(n_nf, NF) and (bool(mvar) and mvar.group(2) == n_nf.canon().replace(" ", "") or (vts.startswith("cat(state.variables;") and f";({n_nf.canon()},))".replace(" ", "") in vts))
     rep.check(rule, fi.qual, "every other variable: concatenate(old, value broadcast to n)", bool(ok_var), what_bad=f"variables become {vt}: old elements first and n new ones, or the arrays lose alignment with pid", what_ok="old first, n new values", loc=fi.loc())
     # loop domain
     loops = [n for n in walk_no_nested(fi.node) if isinstance(n, ast.For) and any(isinstance(x, ast.Call) and unparse(x.func) == "np.concatenate" for x in ast.walk(n))]
@@ -279,12 +283,16 @@ def value_precedence(prog: Program, rep: Report, rule: str) -> None:
 def compactify_step(prog: Program, rep: Report) -> None:
     rule = "R05.3"
     fi = prog.role_func("state", "compactify")
-    loops = [n for n in walk_no_nested(fi.node) if isinstance(n, ast.For) and any(isinstance(x, ast.Subscript) and isinstance(x.ctx, ast.Store) and unparse(x.value) == "self.variables" for x in ast.walk(n))]
+    from ..program import punparse
+
+    def P(e):
+        return punparse(e, fi.node)
+    loops = [n for n in walk_no_nested(fi.node) if isinstance(n, ast.For) and any(isinstance(x, ast.Subscript) and isinstance(x.ctx, ast.Store) and P(x.value) == "self.variables" for x in ast.walk(n))]
     if not loops:
         raise AnalysisError("State.compactify: no loop storing into self.variables found")
     all_stores = []
     for loop in loops:
-        it_src = unparse(loop.iter)
+        it_src = P(loop.iter)
         rep.check(rule, fi.qual, f"loop over {it_src}", it_src in ("self.instance_variables", "sorted(self.instance_variables)", "list(self.instance_variables)"), what_bad="dead particles must be removed from the instance variables and from nothing else (particle variables are indexed by pid and keep their length)", what_ok="instance variables only", loc=fi.loc(loop))
         var = unparse(loop.target)
         stores = [n for n in loop.body if isinstance(n, ast.Assign)]
@@ -294,10 +302,10 @@ def compactify_step(prog: Program, rep: Report) -> None:
         if ok:
             st = stores[0]
             t, v = st.targets[0], st.value
-            ok = unparse(t) == f"self.variables[{var}]" and isinstance(v, ast.Subscript) and unparse(v.value) == f"self.variables[{var}]" and isinstance(v.slice, ast.Name)
+            ok = P(t) == f"self.variables[{var}]" and isinstance(v, ast.Subscript) and P(v.value) == f"self.variables[{var}]" and isinstance(v.slice, ast.Name)
             if ok:
                 mask_name = v.slice.id
-        emptying = len(stores) == 1 and len(loop.body) == 1 and unparse(stores[0].targets[0]) == f"self.variables[{var}]" and (unparse(stores[0].value).startswith(("np.array([]", "np.empty(0", "np.zeros(0")) or unparse(stores[0].value) == f"self.variables[{var}][:0]")
+        emptying = len(stores) == 1 and len(loop.body) == 1 and P(stores[0].targets[0]) == f"self.variables[{var}]" and (unparse(stores[0].value).startswith(("np.array([]", "np.empty(0", "np.zeros(0")) or P(stores[0].value) == f"self.variables[{var}][:0]")
         if emptying and len(loops) > 1:
             rep.add(rule, fi.qual, f"body of the loop over {it_src}: arrays emptied", None, "an emptying fast path: correct only under a guard that no particle is alive (not decided)", fi.loc(loop))
             continue
@@ -306,7 +314,7 @@ def compactify_step(prog: Program, rep: Report) -> None:
             defs = [n for n in walk_no_nested(fi.node) if isinstance(n, ast.Assign) and unparse(n.targets[0]) == mask_name]
             before = [d for d in defs if d.lineno < loop.lineno]
             inside = [d for d in defs if d.lineno >= loop.lineno]
-            src = unparse(before[-1].value) if before else ""
+            src = P(before[-1].value) if before else ""
             derived = src in ("self.alive.copy()", "self.alive", "self.variables['alive'].copy()", "self.variables['alive']", "self['alive'].copy()", "self['alive']", "np.array(self.alive)", "self.alive.astype(bool)")
             rep.check(rule, fi.qual, f"mask `{mask_name}` = alive, bound before the loop, not rebound inside", bool(before) and derived and not inside, what_bad=f"mask defined as `{src}` (rebinding inside the loop: {len(inside)}): all arrays must be filtered with the *same* alive mask taken before any array is shortened", what_ok=src, loc=fi.loc())
     stores = all_stores
@@ -343,8 +351,20 @@ def provenance(prog: Program, rep: Report) -> None:
         ok = src == f"self.variables[{key}]"
         rep.check(rule, ff.qual, short(w.node), ok, what_bad="a forcing value stored in the state must be the sample just taken at the current particle positions", what_ok="fresh sample of the same name", loc=ff.loc(w.node))
     st = prog.role_func("state", "__setitem__")
-    body = unparse(st.node)
-    rep.check(rule, st.qual, "item assignment stores np.array(item, dtype) unchanged in order", "np.array(item, dtype=self.dtypes[var])" in body and not any(k in body for k in ("sort", "argsort", "[::-1]", "flip", "permutation")), what_bad="__setitem__ transforms the value", what_ok="dtype conversion only", loc=st.loc())
+    from ..program import xunparse
+
+    params = [p_ for p_ in st.params if p_ != "self"]
+    stores = [n for n in walk_no_nested(st.node) if isinstance(n, ast.Assign) and isinstance(n.targets[0], ast.Subscript) and xunparse(n.targets[0].value, st.node) == "self.variables"]
+    ok = False
+    got = [xunparse(n.value, st.node) for n in stores]
+    if len(stores) == 1 and len(params) == 2:
+        key, item = params
+        v = ast.parse(got[0], mode="eval").body
+        if isinstance(v, ast.Call) and unparse(v.func) in ("np.array", "numpy.array") and len(v.args) >= 1 and unparse(v.args[0]) == item and unparse(stores[0].targets[0].slice) == key:
+            kws = {k.arg: unparse(k.value) for k in v.keywords}
+            dt = kws.get("dtype") or (unparse(v.args[1]) if len(v.args) > 1 else None)
+            ok = dt == f"self.dtypes[{key}]" and kws.get("copy", "True") == "True" and set(kws) <= {"dtype", "copy"}
+    rep.check(rule, st.qual, "item assignment stores np.array(item, dtype) unchanged in order", ok, what_bad=f"__setitem__ stores {got}: it must store a fresh copy np.array(item, dtype=self.dtypes[var]) of exactly the value given (no alias of the caller's array, no reordering)", what_ok="dtype conversion only", loc=st.loc())
     for meth in ("__getitem__", "__getattr__"):
         g = prog.role_func("state", meth)
         rets = [n for n in walk_no_nested(g.node) if isinstance(n, ast.Return)]
